@@ -8,7 +8,7 @@
    (distinct parameter names, defaults form a suffix of the positional parameters); wf_shape = a call
    Python accepts (no repeated keyword).  All statements are for signatures and calls of any size. *)
 From Coq Require Import List Arith Bool.
-From PV Require Import Bind.Model Bind.Proofs Bind.PytdModel Bind.PytdProofs.
+From PV Require Import Bind.Model Bind.Proofs Bind.PytdModel Bind.PytdProofs Bind.SplatModel Bind.SplatProofs Bind.SplatFacts.
 Import ListNotations.
 
 (* The repaired mapper binds exactly as CPython does. *)
@@ -184,4 +184,116 @@ Proof.
   cbv zeta. split; [apply wf_shapeb_sound; reflexivity|]. split.
   - intros i. unfold argname14. simpl. split; intros H; repeat (destruct H as [H|H]; [discriminate H|]); exact H.
   - vm_compute. repeat split; reflexivity.
+Qed.
+
+(* ================================================================================== *)
+(* Call sites with * / ** splats (coq/Bind/SplatModel.v).  An [xcall] is the call as pytype's VM hands it to
+   the callee: x_npos bound arguments (self), the entries x_items of Args.starargs (IArg = one argument, IStar =
+   an indefinite-length splat), the keyword names x_kws (plain keywords and the constant keys of ** dict
+   literals), x_opaque = a non-concrete ** dict.  bind_px = Args.simplify (_unpack_and_match_args) followed by
+   SignedFunction._map_args with its starargs / starstarargs branches, as the code stands after 98ee907.
+   expand c lens extra = the call CPython performs when the indefinite splats have the lengths [lens] and the
+   opaque dict the keys [extra]. *)
+
+(* Without splats and ** the extended mapper is the one of the first part of this file. *)
+Theorem bind_py_star_plain_eq :
+  forall fixed s c, bind_py_star fixed None false s c = bind_py_gen fixed s c.
+Proof. exact bind_py_star_plain. Qed.
+Print Assumptions bind_py_star_plain_eq.
+
+(* Concrete splats (tuple / list literals of known length, ** dict literals with constant keys, no argument
+   written after a splat -- site_items keeps those argument by argument): pytype binds exactly the expanded
+   call, ... *)
+Theorem splat_concrete_expands :
+  forall s c, wf_sig s -> NoDup (x_kws c) -> concrete c -> bind_px s c = bind_py_fixed s (expand c [] []).
+Proof. exact bind_px_concrete. Qed.
+Print Assumptions splat_concrete_expands.
+
+(* ... hence (composed with bind_agree_fixed) exactly as CPython binds the expanded call. *)
+Theorem splat_concrete_agree :
+  forall s c, wf_sig s -> NoDup (x_kws c) -> concrete c -> agree s (bind_px s c) (bind_c s (expand c [] [])).
+Proof. exact splat_concrete_agree_lemma. Qed.
+Print Assumptions splat_concrete_agree.
+
+(* What is given up on: a plain argument written after a splat makes the VM hand over ONE indefinite splat. *)
+Theorem site_items_collapse :
+  forall l, plain_after_splat false l = true -> site_items l = [IStar].
+Proof. exact site_items_collapse_lemma. Qed.
+Print Assumptions site_items_collapse.
+
+Theorem site_items_plain : forall n, site_items (repeat PA n) = repeat IArg n.
+Proof. exact site_items_plain_lemma. Qed.
+Print Assumptions site_items_plain.
+
+(* Indefinite splats, "no false positives": pytype reports an arity / keyword error only if EVERY length of the
+   splats (and every key set of the opaque dict) makes CPython raise.  Refuted twice by the code as it stands:
+   def f(d); f( *xs, *(a,)) -- the splat is counted as one argument: wrong-arg-count, CPython binds for len(xs) = 0 *)
+Theorem splat_no_false_positive_refuted_args_after_star :
+  exists s c lens, wf_sig s /\ NoDup (x_kws c) /\ (forall k, In k (x_kws c) -> ~ In k (posonly s))
+    /\ bind_px s c = Err EWrongArgCount /\ is_err (bind_c s (expand c lens [])) = false.
+Proof. exact splat_fp_refuted_after_lemma. Qed.
+Print Assumptions splat_no_false_positive_refuted_args_after_star.
+
+(* def f(a, /, d, **kw); f( *xs, a=k) -- the expansion of the splat stops at the keyword's name although it can only
+   go to **kw: missing-parameter a, CPython binds a = xs[0], d = xs[1], kw = {a: k} for len(xs) = 2 *)
+Theorem splat_no_false_positive_refuted_posonly_keyword :
+  exists s c lens, wf_sig s /\ NoDup (x_kws c) /\ star_last c
+    /\ bind_px s c = Err (EMissingParameter 0) /\ is_err (bind_c s (expand c lens [])) = false
+    /\ lookup_all s (bind_c s (expand c lens [])) = Some [Some (Pos 0); Some (Pos 1); Some (KwArgs [0])].
+Proof. exact splat_fp_refuted_posonly_lemma. Qed.
+Print Assumptions splat_no_false_positive_refuted_posonly_keyword.
+
+(* Outside these two situations it holds, for every signature, every call, all lengths and all key sets:
+   no argument after the last indefinite splat, no keyword naming a positional-only parameter. *)
+Theorem splat_no_false_positive_partial :
+  forall s c lens extra, wf_sig s -> NoDup (x_kws c ++ (if x_opaque c then extra else [])) ->
+  star_last c -> (forall k, In k (x_kws c) -> ~ In k (posonly s)) ->
+  is_err (bind_px s c) = true -> is_err (bind_c s (expand c lens extra)) = true.
+Proof. exact splat_no_false_positive_partial_lemma. Qed.
+Print Assumptions splat_no_false_positive_partial.
+
+(* Call depth (InterpreterFunction.call: simplify + match the signature FIRST, then give up at maximum depth):
+   a binding error is raised at every depth ... *)
+Theorem depth_raise_iff :
+  forall max_depth frames is_init s c e,
+  call_at_depth max_depth frames is_init s c = ORaise e <-> bind_px s c = Err e.
+Proof. exact depth_raise_iff_lemma. Qed.
+Print Assumptions depth_raise_iff.
+
+(* ... and the body of a function handed through n helper frames from module level (limit 4) is given up on
+   exactly from n = 4 on, only when the arguments bind. *)
+Theorem depth_helpers :
+  forall helpers s c, is_err (bind_px s c) = false ->
+  (call_at_depth 4 (frames_at_call helpers) false s c = OUnsolvable <-> 4 <= helpers).
+Proof. exact depth_helpers_lemma. Qed.
+Print Assumptions depth_helpers.
+
+(* Non-vacuity.  g( *(p0, p1), *[p2, p3], **{g: .., zz: ..}) on sig_rich: concrete, binds like g(p0..p3, g=.., zz=..) *)
+Example splat_concrete_call :
+  let c := mkX 0 (site_items [PT 2; PT 2]) [6; 11] false in
+  concrete c /\ NoDup (x_kws c) /\
+  lookup_all sig_rich (bind_px sig_rich c)
+    = Some [Some (Pos 0); Some (Pos 1); Some (Pos 2); Some (Kw 6); Some Default; Some (VarArgs [3]); Some (KwArgs [11])] /\
+  lookup_all sig_rich (bind_c sig_rich (expand c [] [])) = lookup_all sig_rich (bind_px sig_rich c).
+Proof.
+  cbv zeta. split; [split; [|reflexivity]|split].
+  - simpl. intros x H. repeat (destruct H as [H|H]; [symmetry; exact H|]). destruct H.
+  - apply (wf_shapeb_sound (mkShape 0 [6; 11])). reflexivity.
+  - vm_compute. split; reflexivity.
+Qed.
+
+(* def h(a, b, c, *, k): h(p0, *xs, c=..) -- star last, no positional-only name as keyword: the hypotheses of the
+   partial theorem hold, the mapper reports missing-parameter k, and indeed CPython raises for lengths 0, 1, 2, 3 *)
+Example splat_star_call :
+  let s := mkSig [] [0; 1; 2] [6] [] None None in
+  let c := mkX 0 (site_items [PA; PX]) [2] false in
+  wf_sig s /\ star_last c /\ (forall k, In k (x_kws c) -> ~ In k (posonly s)) /\
+  bind_px s c = Err (EMissingParameter 6) /\
+  forallb (fun n => is_err (bind_c s (expand c [n] []))) [0; 1; 2; 3] = true /\
+  (* with the keyword-only argument supplied the call is accepted: b holds the splat's element type *)
+  lookup_all s (bind_px s (mkX 0 (site_items [PA; PX]) [2; 6] false))
+    = Some [Some (Pos 0); Some (Elem 1); Some (Kw 2); Some (Kw 6)].
+Proof.
+  cbv zeta. split; [apply wf_sigb_sound; reflexivity|]. split; [reflexivity|]. split; [intros k _ []|].
+  vm_compute. repeat split; reflexivity.
 Qed.
